@@ -15,6 +15,7 @@ import (
 func init() { fw.Register("C04", "exploration", Run) }
 
 const kfIngressController = "C04-workload-named-ingress-controller"
+const ingressController = "{ingress-controller}"
 
 // Family builds the family of worlds whose ordered pairs are diffed.
 func Family(quick bool) []*wm.World {
@@ -223,7 +224,7 @@ func Check(A, B *wm.World, la, lb wm.ToolResult, d wm.DiffResult, x *fw.Rec) {
 			fail("entry carries connections that differ from the two reports", "", descr+fmt.Sprintf(" entry(%s | %s) reports(%s | %s)", e.C1, e.C2, c1, c2))
 		}
 		wantNewSrc, wantNewDst := false, false
-		if !p.srcIP {
+		if !p.srcIP && p.src != ingressController {
 			wantNewSrc = (want == "added" && !na[p.src]) || (want == "removed" && !nb[p.src])
 		}
 		if !p.dstIP {
@@ -256,6 +257,11 @@ func Check(A, B *wm.World, la, lb wm.ToolResult, d wm.DiffResult, x *fw.Rec) {
 	}
 	sort.Slice(cs, func(i, j int) bool { return cs[i] < cs[j] })
 	npts := 0
+	// the {ingress-controller} pseudo peer is a source of lines like any other (it is never new or lost itself)
+	for _, t := range ws {
+		checkPoint(point{src: ingressController, dst: t}, ingressController+" => "+t)
+		npts++
+	}
 	for _, s := range ws {
 		for _, t := range ws {
 			if s != t {
